@@ -71,6 +71,37 @@ DEFAULT_CONFIG = {
     "logging": {"level": "warn"},
 }
 
+class _PortLost(Exception):
+    pass
+
+
+def _listening_ports(pid):
+    """TCP ports on which process `pid` itself owns a listening socket"""
+    inodes = set()
+    try:
+        for fd in os.listdir("/proc/%d/fd" % pid):
+            try:
+                l = os.readlink("/proc/%d/fd/%s" % (pid, fd))
+            except OSError:
+                continue
+            if l.startswith("socket:["):
+                inodes.add(l[8:-1])
+    except OSError:
+        return set()
+    ports = set()
+    for f in ("/proc/%d/net/tcp" % pid, "/proc/%d/net/tcp6" % pid):
+        try:
+            with open(f) as fh:
+                next(fh)
+                for line in fh:
+                    p = line.split()
+                    if len(p) > 9 and p[3] == "0A" and p[9] in inodes:
+                        ports.add(int(p[1].rsplit(":", 1)[1], 16))
+        except (OSError, StopIteration):
+            pass
+    return ports
+
+
 _built = False
 _live = []
 _seq = [0]
@@ -277,6 +308,25 @@ class Server:
         return cfg
 
     def start(self):
+        """Ports are found by binding port 0 and releasing it, so another process (a server of a concurrently running
+        scenario or check) can take the port before our child binds it.  The child then exits with a bind error - but for a
+        moment a connection to the port succeeds, answered by the OTHER server.  A start therefore counts only when the
+        listening socket on the port is owned by OUR child (/proc/<pid>/fd + /proc/<pid>/net/tcp); a lost race is repeated
+        with fresh ports."""
+        last = None
+        for attempt in range(4):
+            try:
+                return self._start_once()
+            except _PortLost as e:
+                last = e
+                try:
+                    self.kill()
+                except Exception:
+                    pass
+                time.sleep(0.05 * (attempt + 1))
+        raise ToolError("kyrodb_server could not get its ports in 4 attempts: %s" % last)
+
+    def _start_once(self):
         if self.alive():
             raise ToolError("server already running")
         if not os.path.exists(SERVER_BIN):
@@ -311,11 +361,24 @@ class Server:
         while True:
             rc = self.proc.poll()
             if rc is not None:
-                raise ToolError("kyrodb_server exited with %s during start: %s" % (rc, self.log_tail(1500)))
+                tail = self.log_tail(1500)
+                if "ddress already in use" in tail or "AddrInUse" in tail:
+                    raise _PortLost("bind failed: %s" % tail[-300:])
+                raise ToolError("kyrodb_server exited with %s during start: %s" % (rc, tail))
+            if self.grpc_port in _listening_ports(self.proc.pid):
+                break
             try:
                 c = socket.create_connection(("127.0.0.1", self.grpc_port), timeout=0.5)
                 c.close()
-                break
+                # someone listens on the port: us (then the next round of the loop sees our socket) or a stranger
+                if self.grpc_port not in _listening_ports(self.proc.pid):
+                    time.sleep(0.05)
+                    if self.proc.poll() is None and self.grpc_port in _listening_ports(self.proc.pid):
+                        break
+                    if time.time() - t0 > 1.0:
+                        raise _PortLost("port %d is served by another process" % self.grpc_port)
+                else:
+                    break
             except OSError:
                 pass
             if time.time() - t0 > self.start_timeout:
